@@ -27,7 +27,7 @@ def reply_of(model, op):
 
 def gen_conc_op(g, model, tag, unique, lo, hi, sess):
     """A multi-element read or write on tag within [lo, hi) (shared region) by name or address."""
-    k = g.weighted([(4, 'write'), (4, 'read'), (1, 'writefrag'), (1, 'readfrag'), (1, 'gas'), (1, 'sas')], 'ck')
+    k = g.weighted([(4, 'write'), (6, 'read'), (1, 'writefrag'), (1, 'readfrag'), (1, 'gas'), (1, 'sas')], 'ck')
     if k in ('gas', 'sas') and tag.addr is None:
         k = 'read' if k == 'gas' else 'write'
     if k == 'gas':
@@ -37,7 +37,7 @@ def gen_conc_op(g, model, tag, unique, lo, hi, sess):
         return {'kind': 'sas', 'ref': ('addr', tag.addr), 'data': rc.enc_elems(tag.tname, vals)}
     idx = lo + g.draw(hi - lo, 'ci')
     n = 1 + g.draw(hi - idx, 'cn')
-    if g.chance(1, 3, 'span'):
+    if g.chance(1, 2, 'span'):
         idx, n = lo, hi - lo
     op = {'kind': k, 'ref': ('name', tag.name), 'index': idx, 'elements': n}
     if tag.addr is not None and g.chance(1, 4, 'byaddr'):
@@ -52,14 +52,19 @@ def gen_conc_op(g, model, tag, unique, lo, hi, sess):
 
 @world('c09')
 def c09(tapes, params):
+    # C09 is about tag storage seen by several threads: the storage accessors get most of the focused runs
+    params.setdefault('focus_weights', {'__setitem__': 14, '__getitem__': 10, 'produce': 4})
     w = EnipWorld(tapes, params, preempt=True)
     g = w.gen
-    nsess = g.between(2, params.get('max_sessions', 5), 'nsess')
+    nsess = g.weighted([(1, 2), (3, 3), (3, 4), (2, params.get('max_sessions', 5))], 'nsess')
     # few short tags so that histories stay checkable and ranges overlap
     params.setdefault('budget', g.choice([488, 488, 16, 40], 'budget'))
     w.gen_tags(ntags=g.between(1, 3, 'ntags'), types=WIDE, maxlen=params.get('maxlen', 8))
+    for t in w.model.tags.values():
+        pass
     w.start_server()
     tags = sorted(w.model.tags.values(), key=lambda t: t.name)
+    hot = [max(tags, key=lambda t: (t.length, t.name))]
     unique = {'n': 0}
     init = w.model.snapshot()
     history = []
@@ -83,12 +88,14 @@ def c09(tapes, params):
         w.sched.block(Waiter(cond=lambda: ready['n'] >= nsess, why='barrier'))
         if i == 0:
             w.bind_auto_tags()
-        nops = g.between(3, params.get('max_ops', 8), 'nops')
+        nops = g.between(3, params.get('max_ops', 9), 'nops')
         for _ in range(nops):
-            tag = g.choice(tags, 'ctag')
+            # most requests go to one hot tag, so that multi-element reads and writes of different
+            # sessions really overlap in time
+            tag = hot[0] if g.chance(3, 4, 'hot?') else g.choice(tags, 'ctag')
             L = tag.length
             # private sub-range of this session vs the shared rest
-            if L >= nsess + 1 and g.chance(1, 3, 'private'):
+            if L >= nsess + 1 and g.chance(1, 6, 'private'):
                 lo, hi = i, i + 1
             else:
                 lo, hi = 0, L
